@@ -66,3 +66,61 @@ package core
 //@   ensures[C07.set_stored]       result2 == nil && result0 ==> expiresOf(fact) == result1 && !badExpires(fact)
 //@   ensures[C07.set_stored_none]  result2 == nil && !result0 ==> !has(fact,"expires")
 //@   ensures[C07.set_rule_copy]    result2 == nil && result0 && has(fact,"rule") ==> is(fact["rule"], map[string]interface{}) && expiresOf(fact["rule"].(map[string]interface{})) == result1
+
+// The matcher (sheens dependency) is assumed not to modify pattern, fact or the caller's bindings (C05's assumed contract).
+//@ iface Matcher.Match
+//@   pure-effects
+//@ func Matches
+//@   pure-effects
+//@ func Match
+//@   pure-effects
+
+// ghost: ids for which the state's own removal routine ran (set by rem; read by the purge obligations)
+//@ ghost purged map[string]bool
+
+//@ func PrepareFact
+//@   ensures[C07.prepare_rejects_expired] err == nil && expiresOf(m) != 0 ==> expiresOf(m) > floordiv(old(clock()), 1000000000)
+//@   ensures[C07.prepare_no_ttl]          err == nil ==> m != nil && !has(m,"ttl") && !badExpires(m)
+
+//@ func Expire
+//@   ensures[C07.Expire_exact]  !old(badExpires(fact)) && now != 0 ==> result0 == old(expiredAt(fact, now))
+//@   ensures[C07.Expire_keeps]  !result0 ==> expiresOf(fact) == old(expiresOf(fact))
+
+//@ func (*IndexedState).rem
+//@   ghost-ensures purged[id]
+//@   also-modifies purged
+//@ func (*LinearState).rem
+//@   ghost-ensures purged[id]
+//@   also-modifies purged
+
+//@ func (*IndexedState).expire
+//@   ensures[C07.ix_expire_exact]  !old(badExpires(fact)) && unixNow != 0 ==> result0 == old(expiredAt(fact, unixNow))
+//@   ensures[C07.ix_expire_clock]  !old(badExpires(fact)) && unixNow == 0 && !result0 ==> old(expiresOf(fact)) == 0 || old(expiresOf(fact)) > floordiv(old(clock()), 1000000000)
+//@   ensures[C07.ix_expire_keeps]  !result0 ==> expiresOf(fact) == old(expiresOf(fact)) && badExpires(fact) == old(badExpires(fact))
+//@   ensures[C07.ix_expire_purges] result0 ==> purged[id]
+//@   ensures[C07.ix_expire_baderr] old(badExpires(fact)) ==> result1 != nil && !result0
+
+//@ func (*LinearState).expire
+//@   ensures[C07.lin_expire_exact]  !old(badExpires(fact)) && now != 0 ==> result0 == old(expiredAt(fact, now))
+//@   ensures[C07.lin_expire_clock]  !old(badExpires(fact)) && now == 0 && !result0 ==> old(expiresOf(fact)) == 0 || old(expiresOf(fact)) > floordiv(old(clock()), 1000000000)
+//@   ensures[C07.lin_expire_keeps]  !result0 ==> expiresOf(fact) == old(expiresOf(fact)) && badExpires(fact) == old(badExpires(fact))
+//@   ensures[C07.lin_expire_purges] result0 ==> purged[id]
+//@   ensures[C07.lin_expire_baderr] old(badExpires(fact)) ==> result1 != nil && !result0
+
+//@ func (*IndexedState).get
+//@   ensures[C07.ix_get_unexpired] result1 == nil ==> expiresOf(result0) == 0 || expiresOf(result0) > floordiv(old(clock()), 1000000000)
+
+//@ func (*LinearState).get
+//@   ensures[C07.lin_get_unexpired] result1 == nil ==> expiresOf(result0) == 0 || expiresOf(result0) > floordiv(old(clock()), 1000000000)
+
+//@ func (*IndexedState).search
+//@   assert[C07.ix_search_never_emits_expired] at "append(sra, sr)": !expiredAt(fact, now)
+
+//@ func (*IndexedState).doFindRules
+//@   assert[C07.ix_findrules_never_emits_expired] at "acc[id]": !expiredAt(rule, now)
+
+//@ func (*LinearState).search
+//@   assert[C07.lin_search_never_emits_expired] at "append(srs.Found, sr)": !expiredAt(rf.M, now)
+
+//@ func (*LinearState).doFindRules
+//@   assert[C07.lin_findrules_never_emits_expired] at "acc[id]": !expiredAt(rf.M, now)
